@@ -405,23 +405,35 @@ func ruleListLinkPairing(c *Ctx, r *R) {
 				// the test must be fresh: the load of l.<end> sits in the branching block with no call or store to
 				// the list after it
 				li, ok := ld.(ssa.Instruction)
-				if !ok || li.Block() != g.blk {
+				if !ok {
 					why = "the end test was evaluated before the list was modified (stale)"
 					continue
 				}
+				// the test is fresh as long as nothing between the load of l.<end> and this store can have changed l.<end>: no
+				// store to that same field and no call into the package on any path from the one to the other (stores to the
+				// other end or to node links do not touch it; the value compared with is immutable)
+				after := func(a, b ssa.Instruction) bool { // can b execute after a?
+					if a.Block() == b.Block() {
+						return idxIn(a) < idxIn(b)
+					}
+					return reaches(a.Block(), b.Block())
+				}
 				stale := false
-				for _, x := range g.blk.Instrs[idxIn(li)+1:] {
+				instrs(fn, func(_ *ssa.BasicBlock, _ int, x ssa.Instruction) {
+					if x == ssa.Instruction(st) || !after(li, x) || !after(x, st) {
+						return
+					}
 					switch y := x.(type) {
 					case *ssa.Call:
 						if cal := staticCallee(&y.Call); cal != nil && cal.Pkg == fn.Pkg {
 							stale = true
 						}
 					case *ssa.Store:
-						if fa2, ok := y.Addr.(*ssa.FieldAddr); ok && isNamedType(fa2.X.Type(), "container/xlist", "List") {
+						if fa2, ok := y.Addr.(*ssa.FieldAddr); ok && isNamedType(fa2.X.Type(), "container/xlist", "List") && fieldName(fa2.X.Type(), fa2.Field) == f {
 							stale = true
 						}
 					}
-				}
+				})
 				if stale {
 					why = "the end test was evaluated before the list was modified (stale)"
 					continue
